@@ -13,6 +13,9 @@ pub struct Run {
     pub stdout: String,
     pub stderr: String,
     pub timed_out: bool,
+    /// CPU seconds (user + system) the child had consumed when the wall-clock watchdog fired;
+    /// 0 if it did not fire. Load independent, unlike the wall clock.
+    pub cpu_s_at_timeout: f64,
 }
 
 /// Run the binary with `args`; `stdin` is fed if given. Wall-clock limit is a watchdog only.
@@ -27,7 +30,7 @@ pub fn run_bytes(cli: &str, args: &[String], stdin: Option<&[u8]>, limit: Durati
     cmd.env_remove("RUST_BACKTRACE");
     let mut child = match cmd.spawn() {
         Ok(c) => c,
-        Err(e) => return Run { status: None, signal: false, stdout: String::new(), stderr: format!("spawn failed: {}", e), timed_out: false },
+        Err(e) => return Run { status: None, signal: false, stdout: String::new(), stderr: format!("spawn failed: {}", e), timed_out: false, cpu_s_at_timeout: 0.0 },
     };
     if let Some(text) = stdin {
         if let Some(mut si) = child.stdin.take() {
@@ -50,11 +53,22 @@ pub fn run_bytes(cli: &str, args: &[String], stdin: Option<&[u8]>, limit: Durati
         String::from_utf8_lossy(&s).to_string()
     });
     let mut timed_out = false;
+    let mut cpu_s = 0.0f64;
     let status = loop {
         match child.try_wait() {
             Ok(Some(st)) => break Some(st),
             Ok(None) => {
                 if start.elapsed() > limit {
+                    // utime + stime of the child from /proc (fields 14 and 15 after the command name)
+                    if let Ok(stat) = std::fs::read_to_string(format!("/proc/{}/stat", child.id())) {
+                        if let Some(rest) = stat.rsplit(')').next() {
+                            let f: Vec<&str> = rest.split_whitespace().collect();
+                            if f.len() > 13 {
+                                let ticks = f[11].parse::<f64>().unwrap_or(0.0) + f[12].parse::<f64>().unwrap_or(0.0);
+                                cpu_s = ticks / 100.0;
+                            }
+                        }
+                    }
                     let _ = child.kill();
                     let _ = child.wait();
                     timed_out = true;
@@ -74,7 +88,7 @@ pub fn run_bytes(cli: &str, args: &[String], stdin: Option<&[u8]>, limit: Durati
     };
     #[cfg(not(unix))]
     let signal = false;
-    Run { status: status.and_then(|s| s.code()), signal, stdout, stderr, timed_out }
+    Run { status: status.and_then(|s| s.code()), signal, stdout, stderr, timed_out, cpu_s_at_timeout: cpu_s }
 }
 
 #[derive(Debug, Clone)]
